@@ -3,7 +3,7 @@ from shell import replayers
 
 ID = "C08"
 LEVEL = "other"
-FUNCTIONS = ["PortfolioSpace.null_action", "PortfolioSpace.make_rebalancing_request", "TradingEnv.step", "body:Transmitter._create_partitions#0"]
+FUNCTIONS = ["PortfolioSpace.null_action", "PortfolioSpace.make_rebalancing_request", "TradingEnv.step", "body:Transmitter._create_partitions#0", "TradingEnv._process_latent_events", "TradingEnv._process_nonlatent_events"]
 from shell import c08
 SHELL = [c08.timing]
 REPLAYERS = [
@@ -19,4 +19,4 @@ LEVEL_TEXT = ("Deductive kernel: TradingEnv.step is executed symbolically with a
 EXPLANATION = LEVEL_TEXT
 NOT_DEDUCTIVE = ["latent iff stamped within `latency` of the previous timestep (Transmitter._create_partitions loop): bounded shell (C04/C08)",
                  "reset establishes the delay line of d null actions: bounded shell"]
-EXTRA_ASSUMPTIONS = ["ASSUMED contracts: TradingEnv._process_*_events, notify, IState.__call__"]
+EXTRA_ASSUMPTIONS = ["ASSUMED contracts: IState.__call__, Transmitter._next; input assumption of TradingEnv._process_*_events: delivered quotes stay within the property's quantifier (0 < bid <= ask, cash 1/1, rate quoted)"]
